@@ -156,6 +156,9 @@ fn seeds(target: u8) -> Vec<Vec<u8>> {
                     v.push(b);
                 }
             }
+            // `include` lines whose file cannot exist: what the parser does with the line itself (and with its mutants)
+            v.push(b"server {\n  include \"/nonexistent-c03/a.conf\"\n  port 8080\n}\n".to_vec());
+            v.push(b"include \"/nonexistent-c03/b.conf\"\nserver {\n  host \"a\" {\n    include \"/nonexistent-c03/c.conf\"\n  }\n}\n".to_vec());
             v.push(b"server {\n  address \"127.0.0.1\"\n  port 8080 # comment\n  threads 4\n  cache {\n    size 128M\n    time 60\n  }\n  host \"*.example.com\" {\n    route /a, /b/* {\n      directory \"/var/www\"\n    }\n  }\n  route /* {\n    proxy \"127.0.0.1:8000,127.0.0.1:8001\"\n    load_balancer_mode \"random\"\n  }\n}\n".to_vec());
         }
         _ => {}
@@ -170,7 +173,7 @@ fn alphabet(target: u8) -> Vec<Vec<u8>> {
         T_RESPONSE => vec![s(b"HTTP/1.1"), s(b"200"), s(b" "), s(b":"), s(b"\r"), s(b"\n"), s(b"0"), s(b"9"), s(b"a"), s(&[0xc3]), s(&[0xa9]), s(&[0xff]), s(b"Transfer-Encoding: chunked\r\n")],
         T_FRAME | T_MESSAGE | T_MESSAGE_NB => vec![s(&[0x81]), s(&[0x01]), s(&[0x89]), s(&[0x88]), s(&[0x00]), s(&[0x80]), s(&[0x7e]), s(&[0x7f]), s(&[0xfe]), s(&[0xff]), s(&[0x05]), s(&[0x41]), s(&[0x83])],
         T_JSON => vec![s(b"{"), s(b"}"), s(b"["), s(b"]"), s(b":"), s(b","), s(b"\""), s(b"\\"), s(b"u"), s(b"0"), s(b"-"), s(b"e"), s("é".as_bytes()), s(b"\\ud800"), s(b"\\udc00")],
-        T_CONFIG => vec![s(b"server {"), s(b"\n"), s(b"}"), s(b"{"), s(b" "), s(b"route "), s(b"host "), s(b"\""), s(b"size"), s(b"5"), s(b"G"), s("é".as_bytes()), s(b"#"), s(b"a")],
+        T_CONFIG => vec![s(b"server {"), s(b"\n"), s(b"}"), s(b"{"), s(b" "), s(b"route "), s(b"host "), s(b"\""), s(b"size"), s(b"5"), s(b"G"), s("é".as_bytes()), s(b"#"), s(b"a"), s(b"include ")],
         _ => vec![],
     }
 }
@@ -352,7 +355,26 @@ fn nesting(target: u8, deep: bool) -> Vec<Vec<u8>> {
 
 fn skip_config(data: &[u8]) -> bool {
     let s = String::from_utf8_lossy(data);
-    s.contains("include") || s.contains("/dev/") || s.contains("/proc/") || s.contains("/sys/")
+    if s.contains("/dev/") || s.contains("/proc/") || s.contains("/sys/") {
+        return true;
+    }
+    // an `include` line is kept only when it cannot name a file that exists: its value is not a complete quoted string
+    // (lone quote, unterminated, unquoted), is empty, or points below a directory that does not exist
+    s.split(|c| c == '\n' || c == '\r').any(|line| match line.find("include") {
+        None => false,
+        Some(k) => {
+            let v = line[k + 7..].trim();
+            let harmless = if line.contains('#') {
+                false
+            } else if v.len() >= 2 && v.starts_with('"') && v.ends_with('"') {
+                let inner = &v[1..v.len() - 1];
+                inner.is_empty() || inner == "\"" || (inner.starts_with("/nonexistent-c03/") && !inner.contains(".."))
+            } else {
+                true
+            };
+            !harmless
+        }
+    })
 }
 
 /// the input gets past the first token of its grammar (computed from the bytes alone)
@@ -458,7 +480,7 @@ pub fn build_cases(ctx: &Ctx, targets: &[u8]) -> Vec<Case> {
         }
         for (data, origin) in local {
             if t == T_CONFIG && skip_config(&data) {
-                ctx.exclude("config input containing `include` or a device path (operator error, not a parser defect)", 1);
+                ctx.exclude("config input with an `include` line that could name an existing file, or a device path (operator error, not a parser defect)", 1);
                 continue;
             }
             let modes: &[u8] = if matches!(t, T_JSON | T_CONFIG) { &[0] } else if sock && data.len() > 300 { &[0] } else { &[0, 1] };
